@@ -1,13 +1,17 @@
 (* Props/C17.v - Query attributes reach the application exactly as sent. *)
 From Coq Require Import List NArith ZArith Lia Bool.
-From MM Require Import Lib.Bytes Model.Parse Proofs.ParseProofs Gen.FactsPackets.
+From MM Require Import Lib.Bytes Model.Parse Proofs.ParseProofs Gen.FactsPackets Gen.FactsCharset.
 Import ListNotations.
 Open Scope N_scope.
 
 Theorem c17_source_shape :
   translated_packets = true /\ types_read_uint_len_ok = true /\ types_read_str_len_ok = true /\
   types_uint_len_ok = true /\ types_column_type_codes = column_type_codes /\
-  packets_string_param_types = string_types /\ types_fixed_width_ok = true.
+  packets_string_param_types = string_types /\ types_fixed_width_ok = true /\
+  (* the parsers Model/Parse.v transcribes: attribute names and string values are decoded with the character set passed in,
+     nothing is kept between two calls *)
+  packets_read_params_ok = true /\ packets_read_param_value_ok = true /\ packets_parse_com_query_ok = true /\
+  packets_parse_com_stmt_execute_ok = true /\ packets_interpolate_params_ok = true.
 Proof. repeat split; reflexivity. Qed.
 
 (* with the capability: every attribute list and every SQL byte string come back as sent *)
